@@ -127,7 +127,7 @@ def child(vs, order_seed, n, hashseed):
 
 
 def run(ctx, rec):
-    n = 420 if ctx.quick else 900
+    n = 420 if ctx.quick else 2000
     nproc = 4 if ctx.quick else 16
     vs = ctx.seed * 100 + ctx.shard
     events, runs, gens = c09_prog.run_program(vs, 0, n)
